@@ -501,3 +501,15 @@ func imin(a, b int) int {
 	}
 	return b
 }
+
+// CompileDebug is Compile with the debug flag of the entry point under the caller's control.
+func CompileDebug(profile string, debug bool) (q *rego.PreparedEvalQuery, res CallRes) {
+	defer func() {
+		if r := recover(); r != nil {
+			q = nil
+			res = CallRes{Panic: panicInfo(r)}
+		}
+	}()
+	qq, err := pkg.CompileProfile(profile, debug, nil)
+	return qq, CallRes{Err: err}
+}
